@@ -62,6 +62,60 @@ def do_trace(lines):
     return {"trace": tr, "exc": exc, "cpp": cpp, "ignored": ign}
 
 
+# ---------------------------------------------------------------- the emitter on hand-built IR
+import Reduino.transpile.ast as A
+import Reduino.transpile.emitter as E
+
+
+def _leaf(spec):
+    """leaf spec [class name, *positional args] -> a real IR node"""
+    return getattr(A, spec[0])(*spec[1:])
+
+
+def build_ir(t):
+    k = t[0]
+    if k == "leaf":
+        return _leaf(t[1])
+    if k == "if":
+        return A.IfStatement(branches=[A.ConditionalBranch(condition=c, body=[build_ir(x) for x in b]) for c, b in t[1]],
+                             else_body=[build_ir(x) for x in t[2]])
+    if k == "while":
+        return A.WhileLoop(condition=t[1], body=[build_ir(x) for x in t[2]])
+    if k == "for":
+        return A.ForRangeLoop(var_name=t[1], count=t[2], body=[build_ir(x) for x in t[3]])
+    if k == "try":
+        return A.TryStatement(try_body=[build_ir(x) for x in t[1]],
+                              handlers=[A.CatchClause(exception=e, target=g, body=[build_ir(x) for x in b]) for e, g, b in t[2]])
+    raise ValueError(k)
+
+
+def real_emit_block(nodes, indent):
+    """the real _emit_block with a Led `led` on pin 13 known to the state dictionaries"""
+    return E._emit_block(nodes, {"led": 13}, {"led": "__state_led"}, {"led": "__brightness_led"}, {}, {}, {}, {}, {}, {}, {}, {}, {},
+                         {}, {}, {}, {}, {}, {}, {}, {}, {}, indent, in_setup=False, emitted_pin_modes=set(), ultrasonic_pin_modes=set())
+
+
+def do_emitblock(indent, trees):
+    try:
+        return {"lines": real_emit_block([build_ir(t) for t in trees], indent), "exc": None}
+    except _Timeout:
+        raise
+    except BaseException as e:  # noqa
+        return {"lines": None, "exc": type(e).__name__}
+
+
+def do_emitprog(setup, loop, funcs):
+    """the real emit() on a Program whose bodies are hand-built IR (functions: [name, trees])"""
+    try:
+        prog = A.Program(setup_body=[build_ir(t) for t in setup], loop_body=[build_ir(t) for t in loop],
+                         functions=[A.FunctionDef(name=n, params=[], body=[build_ir(t) for t in b], return_type="void") for n, b in funcs])
+        return {"cpp": E.emit(prog), "exc": None}
+    except _Timeout:
+        raise
+    except BaseException as e:  # noqa
+        return {"cpp": None, "exc": type(e).__name__}
+
+
 def span(fn, lines, start):
     try:
         blk, i = fn(list(lines), start)
@@ -174,6 +228,12 @@ def main():
                 out.append(py_comment(c[1]))
             elif op == "pyblocks":
                 out.append(py_blocks(c[1]))
+            elif op == "emitblock":
+                out.append(do_emitblock(c[1], c[2]))
+            elif op == "leaflines":
+                out.append(do_emitblock("", [["leaf", c[1]]]))
+            elif op == "emitprog":
+                out.append(do_emitprog(c[1], c[2], c[3]))
             elif op == "pycompiles":
                 try:
                     compile(src_of(c[1]), "<c07>", "exec")
